@@ -48,6 +48,10 @@ def execute(hist):
       out = 'KeyError'
     except Exception as e:  # pylint: disable=broad-except
       out = 'raised:' + type(e).__name__
+    # every observer is asked after every step: observing must change nothing (a handle taken on a still-empty namespace
+    # keeps writing into the shared table after namespaces() / all_items() / subnamespaces() were called)
+    for x in (md, h['h1'], h['h2']):
+      list(x.all_items()), x.namespaces(), x.subnamespaces(), bool(x), len(x), list(x.items())
   def obs(x):
     return {'len': len(x), 'items': sorted((k, v) for k, v in x.items()), 'cur': tuple(x.current_ns()), 'sub': sorted(tuple(ns) for ns in x.subnamespaces())}
   return {'out': out, 'table': sorted((tuple(ns), k, v) for ns, k, v in md.all_items()), 'namespaces': sorted(tuple(ns) for ns in md.namespaces()),
@@ -114,10 +118,115 @@ def run(ctx, workdir):
     layer['replayed'] += n
     ctx.log('  metadata object %s: TLC %d states / %d transitions, %d replayed, disagreements %s' % (name, res.distinct, len(recs), n, dict(nbad)))
   ctx.coverage['metadata_object'] = layer
+  delta_through_supporters(ctx)
   return layer
 
 
+def delta_through_supporters(ctx):
+  """An algorithm hands its metadata back as a MetadataDelta whose Metadata objects may be HANDLES at any namespace; what
+  is applied is the delta's table, at the absolute namespaces of its cells - by the in-RAM supporter and by the service
+  alike (the table of a delta is read with the class validated above)."""
+  import world
+  from vizier import pythia
+  from vizier import pyvizier as vz
+  from vizier._src.pythia import local_policy_supporters
+  from vizier._src.service import pythia_service
+  from vizier._src.service import study_pb2
+  from vizier._src.service import vizier_service_pb2 as vs
+  from vizier.service import pyvizier as svz
+  n = 0
+  for at in ((), ('a',), ('a', 'b')):
+    for rel in ((), ('b',)):
+      def make(tag):
+        root = vz.Metadata()
+        hnd = root.abs_ns(list(at))
+        x = hnd
+        for c in rel:
+          x = x.ns(c)
+        x['k1'] = tag
+        root.abs_ns(['other'])['k2'] = tag + '-abs'
+        return root, hnd
+
+      class DeltaPolicy(pythia.Policy):
+        calls = 0
+
+        def __init__(self, supporter=None):
+          self._supporter = supporter
+
+        def suggest(self, request):
+          DeltaPolicy.calls += 1
+          delta = vz.MetadataDelta()
+          root, hnd = make('s%d' % DeltaPolicy.calls)
+          delta.on_study.attach(vz.Metadata())            # a no-op on the default object
+          delta = vz.MetadataDelta(on_study=hnd)
+          if DeltaPolicy.calls >= 2:
+            _, h2 = make('t%d' % DeltaPolicy.calls)
+            delta.on_trials[1] = h2
+          return pythia.SuggestDecision(suggestions=[vz.TrialSuggestion({'x': 0.5})], metadata=delta)
+
+        def early_stop(self, request):
+          return pythia.EarlyStopDecisions()
+
+      def expected_tables():
+        study = {((), 'k1'): 'user'}
+        root2, _ = make('s1')
+        for ns, k, v in root2.all_items():
+          study[(tuple(ns), k)] = v
+        root3, _ = make('s2')
+        for ns, k, v in root3.all_items():
+          study[(tuple(ns), k)] = v
+        roott, _ = make('t2')
+        trial = {(tuple(ns), k): v for ns, k, v in roott.all_items()}
+        return study, trial
+      exp_study, exp_trial = expected_tables()
+      prob = vz.ProblemStatement()
+      prob.search_space.root.add_float_param('x', 0.0, 1.0)
+      prob.metric_information.append(vz.MetricInformation('m', goal=vz.ObjectiveMetricGoal.MAXIMIZE))
+      prob.metadata['k1'] = 'user'
+      # ---- in-RAM supporter
+      DeltaPolicy.calls = 0
+      sup = local_policy_supporters.InRamPolicySupporter(prob)
+      pol = DeltaPolicy()
+      got = {}
+      try:
+        sup.SuggestTrials(pol, 1)
+        sup.SuggestTrials(pol, 1)
+        got['in-RAM supporter'] = ({(tuple(ns), k): v for ns, k, v in sup.study_config.metadata.all_items()},
+                                   {(tuple(ns), k): v for ns, k, v in sup.GetTrials(trial_ids=[1])[0].metadata.all_items()})
+      except Exception as e:  # pylint: disable=broad-except
+        got['in-RAM supporter'] = ('raised %s: %s' % (type(e).__name__, str(e)[:80]), None)
+      # ---- the service
+      DeltaPolicy.calls = 0
+      try:
+        svc = world.make_servicer(None, 'never', lambda problem, algo, supporter, name: DeltaPolicy(supporter))
+        sc = svz.StudyConfig.from_problem(prob)
+        sc.algorithm = 'RANDOM_SEARCH'
+        name = svc.CreateStudy(vs.CreateStudyRequest(parent='owners/Delta', study=study_pb2.Study(display_name='d%d' % n, study_spec=sc.to_proto()))).name
+        for wkr in ('w1', 'w2'):
+          op = svc.SuggestTrials(vs.SuggestTrialsRequest(parent=name, suggestion_count=1, client_id=wkr))
+          if op.HasField('error'):
+            raise RuntimeError(op.error.message[:100])
+        cfg = svz.StudyConfig.from_proto(svc.GetStudy(vs.GetStudyRequest(name=name)).study_spec)
+        t1 = svz.TrialConverter.from_proto(svc.GetTrial(vs.GetTrialRequest(name=name + '/trials/1')))
+        got['service'] = ({(tuple(ns), k): v for ns, k, v in cfg.metadata.all_items()}, {(tuple(ns), k): v for ns, k, v in t1.metadata.all_items()})
+      except Exception as e:  # pylint: disable=broad-except
+        got['service'] = ('raised %s: %s' % (type(e).__name__, str(e)[:80]), None)
+      for where, (gs, gt) in got.items():
+        n += 1
+        if gs != exp_study or gt != exp_trial:
+          ctx.violation({'via': 'metadata-delta', 'where': where, 'handle_at_root': at == (), 'what': 'study' if gs != exp_study else 'trial'},
+                        {'kind': 'metadata-delta', 'where': where, 'handle_namespace': list(at), 'written_relative_to_handle': list(rel),
+                         'expected_study': sorted(map(str, exp_study.items())), 'observed_study': sorted(map(str, gs.items())) if isinstance(gs, dict) else gs,
+                         'expected_trial': sorted(map(str, exp_trial.items())), 'observed_trial': sorted(map(str, gt.items())) if isinstance(gt, dict) else gt})
+  ctx.coverage.setdefault('metadata_object', {})['deltas_through_supporters'] = n
+  ctx.log('  metadata deltas built from namespaced handles: %d applications (in-RAM supporter, service)' % n)
+
+
 def replay(ctx, c):
+  if c.get('kind') == 'metadata-delta':
+    delta_through_supporters(ctx)
+    ctx.coverage.update({'states': 1, 'transitions': 1, 'traces_validated_against_impl': 1})
+    return
   got = execute(c['hist'])
   if got != c['expected'] and got != {k: (tup(v) if isinstance(v, list) else v) for k, v in c['expected'].items()}:
     import json
